@@ -252,6 +252,53 @@ fn exhaustive(cfg: &Config, keys: &'static [&'static str], max_len: usize) -> (R
 	(rep, a, b)
 }
 
+/// Exhaustive exploration of every continuation of length <= depth from every
+/// start state made of 3..=max_start entries over `keys` (runs of duplicates
+/// that the plain length bound does not reach).
+fn exhaustive_from_states(cfg: &Config, keys: &'static [&'static str], max_start: usize, depth: usize) -> (Report, usize, usize) {
+	let mut starts: Vec<Vec<Op>> = Vec::new();
+	for n in 3..=max_start {
+		let k = keys.len();
+		let total = k.pow(n as u32);
+		for code in 0..total {
+			let mut c = code;
+			let mut ops = Vec::with_capacity(n);
+			for j in 0..n {
+				let key = keys[c % k].to_string();
+				c /= k;
+				ops.push(if (code + j) % 5 == 0 { Op::PushFront(key) } else { Op::Push(key) });
+			}
+			starts.push(ops);
+		}
+	}
+	let states = std::sync::Mutex::new(HashSet::new());
+	let shapes = std::sync::Mutex::new(HashSet::new());
+	let starts = std::sync::Arc::new(starts);
+	let st2 = starts.clone();
+	let rep = parallel(cfg.threads, starts.len(), |i| {
+		let mut ex = Explorer {
+			keys,
+			max_len: st2[i].len() + depth,
+			rep: Report::new(),
+			states: HashSet::new(),
+			shapes: HashSet::new(),
+		};
+		let mut hist = st2[i].clone();
+		ex.rep.evaluations += 1;
+		ex.rep.distinct_by_construction(1);
+		if let Some((_, m)) = ex.run_history(&hist) {
+			let len = m.entries.len();
+			ex.dfs(&mut hist, len);
+		}
+		states.lock().unwrap().extend(ex.states.iter().copied());
+		shapes.lock().unwrap().extend(ex.shapes.iter().copied());
+		ex.rep
+	});
+	let a = states.into_inner().unwrap().len();
+	let b = shapes.into_inner().unwrap().len();
+	(rep, a, b)
+}
+
 fn random_key(rng: &mut Rng, universe: &[String]) -> String {
 	universe[rng.below(universe.len())].clone()
 }
@@ -494,6 +541,12 @@ pub fn run(cfg: &Config) -> i32 {
 		total.merge(r);
 		extra.insert("distinct_abstract_states_3_keys".into(), json!(st));
 		extra.insert("distinct_index_shapes_3_keys".into(), json!(sh));
+		// every continuation of length <= 2 (3) from every start state of 3..=5 (6) entries over 2 keys
+		let (r, st, sh) = exhaustive_from_states(cfg, &K2, if thorough { 6 } else { 5 }, if thorough { 3 } else { 2 });
+		total.count("exhaustive_continuations_from_seeded_states", r.evaluations);
+		total.merge(r);
+		extra.insert("distinct_abstract_states_from_seeded_states".into(), json!(st));
+		extra.insert("distinct_index_shapes_from_seeded_states".into(), json!(sh));
 		// one key: long runs of duplicates (every history up to length 5 / 6)
 		let (r, st, sh) = exhaustive(cfg, &K1, if thorough { 6 } else { 5 });
 		total.count("exhaustive_histories_1_key", r.evaluations);
@@ -547,7 +600,7 @@ pub fn run(cfg: &Config) -> i32 {
 		cfg,
 		EvidenceMeta {
 			id: "C06",
-			rule: "a case is one operation history replayed from the empty object; exhaustive families enumerate every history up to the length bound over 1, 2 and 3 keys (each history counted once, distinct by construction); random histories are counted by a hash of their first 40 operations; after the last operation of every history prefix the object is compared with the ordered-list model (entries, result of the operation, 10 kinds of key query for every key and an absent key, index representation invariant through the hook); non-trivial = at least one operation",
+			rule: "a case is one operation history replayed from the empty object; exhaustive families enumerate every history up to the length bound over 1, 2 and 3 keys and every continuation of length <= 2 (thorough 3) from every start state of 3..5 (6) entries over 2 keys (each history counted once, distinct by construction); random histories are counted by a hash of their first 40 operations; after the last operation of every history prefix the object is compared with the ordered-list model (entries, result of the operation, 10 kinds of key query for every key and an absent key, index representation invariant through the hook); non-trivial = at least one operation",
 			exhaustive: false,
 			assumptions: vec![
 				"the model (harness/src/oracle/objmodel.rs) states the documented semantics; where the documentation is silent (remove_unique on duplicates removes all matching entries and reports the first two) the model follows the observable behaviour of the pinned tree".into(),
